@@ -52,6 +52,9 @@ type c13Case struct {
 	// ReusePeer: the peer.Peer variables given to grpc.Peer were filled by an earlier call over another
 	// (TLS) connection; the option reports this call's peer, nothing of the previous one
 	ReusePeer bool `json:",omitempty"`
+	// CtxPeer: the caller's context already carries a peer (the call is made from inside another handler, with that
+	// handler's context): it says who called the caller, not who is calling now
+	CtxPeer bool `json:",omitempty"`
 }
 
 type testCreds struct {
@@ -270,6 +273,10 @@ func propC13(c c13Case) *Outcome {
 			ctx = metadata.NewOutgoingContext(ctx, c.CallerMD.MD())
 		}
 	}
+	if c.CtxPeer {
+		o.class("caller-context-carries-a-peer")
+		ctx = peer.NewContext(ctx, &peer.Peer{Addr: &net.TCPAddr{IP: net.IPv4(198, 51, 100, 23), Port: 4444}, AuthInfo: credentials.TLSInfo{}})
+	}
 	var err error
 	stall := guard("call", func() {
 		if c.Stream {
@@ -292,6 +299,23 @@ func propC13(c c13Case) *Outcome {
 	})
 	if stall != "" {
 		return o.failf("stall: %s", stall)
+	}
+	// the credentials' metadata goes into the request, not into the caller's context: what the caller attached
+	// is what its context still says, whatever the outcome of the call
+	{
+		after, _ := metadata.FromOutgoingContext(ctx)
+		want := metadata.MD{}
+		for _, p := range c.CallerMD {
+			k := strings.ToLower(p.K)
+			want[k] = append(want[k], string(p.V))
+		}
+		ok, why := mdContains(after, want)
+		if ok && len(after) != len(want) {
+			ok, why = false, fmt.Sprintf("keys %v, attached %v", after, want)
+		}
+		if !ok {
+			return o.failf("%s (creds=%s): the caller's own outgoing metadata is different after the call: %s", c.Carrier, c.Creds, why)
+		}
 	}
 	mu.Lock()
 	defer mu.Unlock()
@@ -413,7 +437,10 @@ func propC13(c c13Case) *Outcome {
 	}
 	if c.Carrier == cInproc {
 		if hPeer.Addr.Network() != "inproc" {
-			return o.failf("handler peer network %q", hPeer.Addr.Network())
+			return o.failf("handler peer network %q (address %v; the caller's context carried a peer of its own: %v)", hPeer.Addr.Network(), hPeer.Addr, c.CtxPeer)
+		}
+		if hPeer.AuthInfo != nil && hPeer.AuthInfo.AuthType() == "tls" {
+			return o.failf("in-process handler peer claims TLS auth info (the caller's context carried a peer of its own: %v)", c.CtxPeer)
 		}
 		return o
 	}
@@ -473,6 +500,7 @@ func genC13(t *rapid.T) c13Case {
 	c.CallerMD = genMD(t, "caller", 3)
 	c.Append = rapid.Bool().Draw(t, "append")
 	c.ReusePeer = c.PeerOpt > 0 && rapid.IntRange(0, 2).Draw(t, "reusepeer") == 0
+	c.CtxPeer = rapid.IntRange(0, 3).Draw(t, "ctxpeer") == 0
 	switch rapid.IntRange(0, 7).Draw(t, "forwarded") {
 	case 0:
 		// proxy-style headers are ordinary metadata to this transport: they say nothing about the peer
@@ -520,7 +548,7 @@ func init() { registerReplay("C13", propC13) }
 
 const c13Rule = "exhaustive grid {httpgrpc.Server, HandleServices} x {http, https (httptest TLS server)} + in-process x {no creds, creds not requiring security, creds requiring it, creds returning an error} x {unary, stream} x {0,1,2 grpc.Peer options} x {grpc.Header or not}, then rapid-generated credential maps (empty, disjoint, overlapping caller keys) and caller metadata; " +
 	"oracle: security required over http => failure with 0 requests through a counting RoundTripper; credential error => that error, 0 requests; otherwise handler metadata per key = multiset union of caller and credential values with the caller's order kept; grpc.Peer = server host:port and TLSInfo with completed handshake iff https (unary and stream); handler peer likewise; in-process peers have network inproc; " +
-	"also generated since the seeded rounds: credential keys spelled with capitals, failing handlers, caller metadata partly attached with AppendToOutgoingContext, base URL host forms ([::1]:port, name:port, name without port), an earlier second credentials option (the later one is in force; a credential requiring security never crosses plain http), the per-method HTTP server form, proxy-style keys (x-forwarded-for ...) in caller and credential metadata with the handler's peer compared to the connection's remote address, peer variables already filled by an earlier call; " +
+	"also generated since the seeded rounds: credential keys spelled with capitals, failing handlers, caller metadata partly attached with AppendToOutgoingContext, base URL host forms ([::1]:port, name:port, name without port), an earlier second credentials option (the later one is in force; a credential requiring security never crosses plain http), the per-method HTTP server form, proxy-style keys (x-forwarded-for ...) in caller and credential metadata with the handler's peer compared to the connection's remote address, peer variables already filled by an earlier call, the caller's context still saying what the caller attached after the call, a caller context that already carries a (foreign, TLS) peer; " +
 	"non-trivial = credentials present or https; distinct by case hash"
 
 func TestC13(t *testing.T) {
